@@ -322,13 +322,13 @@ def _job(args):
     w = World(_JOB_UNIT)
     try:
         stats = getattr(mod, fname)(None, w, None, **kwargs)
-        return ("ok", stats, w.evals, w.I.executed)
+        return ("ok", stats, w.evals, w.I.executed, w.I.scaled)
     except SetupRefused as e:
         f = e.f
         key = (f.pkey, f.pqn, "valid input is never refused") if f is not None else (("?", 0), "?", "valid input")
         st = dict(n=1, bad=1, qn=f.qn if f else "?", ub=0, ubfirst=None,
                   first=dict(case=_plain(e.case), got=repr(e.outcome), want="the object (the state is valid)"))
-        return ("ok", {key: st}, w.evals, w.I.executed)
+        return ("ok", {key: st}, w.evals, w.I.executed, w.I.scaled)
     except AnalysisBroken as e:
         return ("broken", str(e), 0)
 
@@ -391,6 +391,9 @@ def run_jobs(chk, unit, rule, jobs, procs=None, view=None):
         merge_stats(stats, r[1])
         evals += r[2]
         chk.executed |= r[3]
+        if len(r) > 4 and r[4]:
+            cur = set(chk.notes.get("index_arithmetic_outside_order_type_fragment", []))
+            chk.notes["index_arithmetic_outside_order_type_fragment"] = sorted(cur | set(r[4]))
     chk.notes["abstract_calls"] = chk.notes.get("abstract_calls", 0) + evals
     if view is not None:
         stats = view(stats)
